@@ -467,3 +467,7 @@ V("c03-cached-surface-area", "fault", "C03", P + "polyhedron.py",
   "    @cached_property\n    def _surface_area_cache(self):\n        return np.sum(self.get_face_area())\n\n    @property\n    def surface_area(self):\n        \"\"\"float: Get the surface area.\"\"\"\n        return self._surface_area_cache", rule="COH")
 V("c03-lru-cache-method", "fault", "C03", P + "polyhedron.py",
   "    def get_dihedral(self, a, b):", "    @__import__('functools').lru_cache(maxsize=None)\n    def get_dihedral(self, a, b):", rule="MEMO-1")
+
+V("c16-module-memo", "fault", "C16", P + "polygon.py",
+  "    @property\n    def perimeter(self):\n        \"\"\"float: Get the perimeter of the polygon.\"\"\"\n        return np.sum(",
+  "    @property\n    def perimeter(self):\n        \"\"\"float: Get the perimeter of the polygon.\"\"\"\n        if id(self) in _PERIMETER_MEMO:\n            return _PERIMETER_MEMO[id(self)]\n        _PERIMETER_MEMO[id(self)] = self._perimeter_uncached()\n        return _PERIMETER_MEMO[id(self)]\n\n    def _perimeter_uncached(self):\n        return np.sum(", rule="Q-5")
